@@ -110,10 +110,38 @@ class LedgerMonitor:
         self.calls = 0
         self.pre = None
         self.full_hits = 0
+        self.built = []          # packets protected during the current datagrams_to_send()
+        self.tail_padded = 0     # in-flight datagrams that ended in datagram-level padding
+
+    def on_packet_built(self, sim, ep, epoch, pn, hdr, payload, outlen):
+        # in flight per RFC 9002 section 2, from the plaintext frames (harness/frames.py parser)
+        from harness import sim as simmod
+        fr = simmod.parse_payload(payload)
+        self.built.append({"epoch": epoch, "len": outlen, "in_flight": any(
+            f.get("name") not in ("ACK", "ACK_ECN", "TRANSPORT_CLOSE", "APPLICATION_CLOSE") for f in fr)})
+
+    def wire_in_flight(self, res):
+        """in-flight bytes on the wire of the datagrams one call returned: for a datagram carrying at
+        least one in-flight packet, its length (padding after the last packet included) minus its
+        acknowledgement-only packets; packets are laid out back to back, a 1-RTT packet ends its datagram"""
+        q, total = list(self.built), 0
+        for data, _ in res or []:
+            inside, used = [], 0
+            while q and used + q[0]["len"] <= len(data):
+                p = q.pop(0)
+                inside.append(p)
+                used += p["len"]
+                if p["epoch"] == "ONE_RTT":
+                    break
+            if any(p["in_flight"] for p in inside):
+                total += len(data) - sum(p["len"] for p in inside if not p["in_flight"])
+                self.tail_padded += used < len(data)
+        return total
 
     def before_api(self, sim, ep, name, args, kw):
         if name == "datagrams_to_send":
             c = ep.conn
+            self.built = []
             known = {id(p) for sp in c._loss.spaces for p in sp.sent_packets.values()}
             self.pre = (c._loss.congestion_window, c._loss.bytes_in_flight, bool(c._probe_pending), known)
 
@@ -133,9 +161,15 @@ class LedgerMonitor:
                 allowed = max(allowed, ep.conn._max_datagram_size)
             if cwnd - bif < ep.conn._max_datagram_size:
                 self.full_hits += 1
+            wire = self.wire_in_flight(res)
             if new > allowed:
                 self.problem = (f"{ep.name}: one datagrams_to_send() put {new} in-flight bytes on the wire with "
                                 f"window {cwnd}, {bif} already in flight, probe_pending={probe} (allowed {allowed})")
+            elif wire > allowed:
+                self.problem = (f"{ep.name}: one datagrams_to_send() put {wire} in-flight bytes on the wire (datagrams "
+                                f"{[len(d) for d, _ in res]}, acknowledgement-only packets not counted; the packets "
+                                f"registered with recovery total {new}) with window {cwnd}, {bif} already in flight, "
+                                f"probe_pending={probe} (allowed {allowed})")
             self.pre = None
         tracked = sum(p.sent_bytes for sp in loss.spaces for p in sp.sent_packets.values() if p.in_flight)
         if loss.bytes_in_flight != tracked or loss.bytes_in_flight < 0:
@@ -274,7 +308,7 @@ def _ticket(mds):
     return _tickets[mds]
 
 
-def run_coalesce(seed, mds, algo, target, last_write):
+def run_coalesce(seed, mds, algo, target, last_write, shape="full"):
     """A resuming client fills its congestion window with 0-RTT data so that, at the moment its
     datagram Initial(ACK) + Handshake(Finished) + 1-RTT(stream data) is built, exactly `target`
     bytes of window remain (target swept around 1200 .. max_datagram_size).
@@ -288,6 +322,9 @@ def run_coalesce(seed, mds, algo, target, last_write):
          acknowledge the new Initial, finish the handshake and has 1-RTT data to send;
       5. datagrams_to_send(): the flight-budget oracle of LedgerMonitor judges it; then the
          connection runs on without loss.
+    shape "initial-only": in step 4 the network again lets only the Initial packet of the server's
+    datagram through, so the judged datagram is Initial(ACK) + 0-RTT(last_write bytes) with the
+    padding RFC 9000 14.1 requires appended after the last packet instead of inside a 1-RTT packet.
     Returns (monitor, sim, info)."""
     from harness import sim as simmod
     tick, store = _ticket(mds)
@@ -351,11 +388,14 @@ def run_coalesce(seed, mds, algo, target, last_write):
         s.pending.clear()
         s.now += 0.01
         for d in again[:1]:
-            s.api(c, "receive_datagram", d["data"], d["from"], now=s.now)
+            data = d["data"] if shape == "full" else split_coalesced(d["data"])[0]
+            s.api(c, "receive_datagram", data, d["from"], now=s.now)
         info["reached"] = room()
-        s.api(c, "send_stream_data", 0, bytes(last_write))
-        n0 = len(s.pending)
+        if last_write:
+            s.api(c, "send_stream_data", 0, bytes(last_write))
+        n0, tp0 = len(s.pending), mon.tail_padded
         s.transmit(c)
+        info["tail_padded"] = mon.tail_padded > tp0
         out = s.pending[n0:]
         info["coalesced"] = any(len(split_coalesced(d["data"])) >= 2 and not split_coalesced(d["data"])[-1][0] & 0x80
                                 for d in out)
@@ -373,7 +413,7 @@ def coalesce_targets(mds):
 def coalesce_budget(ctx, r, thorough):
     """window within [1199, max_datagram_size + 1] (and beyond) of full when a padded
     Initial + Handshake + 1-RTT datagram is built, Reno and CUBIC, four datagram sizes"""
-    n = hit = band = 0
+    n = hit = band = tail = 0
     for mds in (1200, 1280, 1350, 1500):
         targets = coalesce_targets(mds)
         if thorough:
@@ -381,46 +421,56 @@ def coalesce_budget(ctx, r, thorough):
         for algo in ("reno", "cubic"):
             for target in targets:
                 seed = r.randrange(1 << 30)
-                last = r.choice([1, 300, 3000])
-                mon, s, info = run_coalesce(seed, mds, algo, target, last)
+                # 0: nothing for the 1-RTT packet, the datagram ends in datagram-level padding
+                shape = ["full", "initial-only"][n % 2] if target < mds else r.choice(["full", "initial-only"])
+                last = r.choice([0, 1, 300, 3000] if shape == "full" else [1, 40, 300])
+                mon, s, info = run_coalesce(seed, mds, algo, target, last, shape)
                 n += 1
                 hit += info["reached"] == target
                 inband = info["coalesced"] and info["reached"] is not None and 1200 <= info["reached"] < mds
                 band += inband
-                ctx.count(("coalesce", mds, algo, target, last), info["coalesced"])
+                tail += bool(inband and info.get("tail_padded"))
+                ctx.count(("coalesce", mds, algo, target, last, shape), info["coalesced"])
                 if mon.problem:
                     ctx.witness(mon.problem, {"harness": "coalesce", "seed": seed, "mds": mds, "algo": algo,
-                                              "target": target, "last_write": last, "window_left": info["reached"],
+                                              "target": target, "last_write": last, "shape": shape, "window_left": info["reached"],
                                               "datagrams": info.get("datagrams"), "trace": s.log[-12:]},
                                 {"oracle": "connection-ledger", "scenario": "coalesce"})
     ctx.cov["traces_validated_against_impl"] += n
-    ctx.notes["coalesce"] = {"runs": n, "window_exactly_at_target": hit, "padded_initial_1rtt_datagram_with_window_in_[1200,mds)": band}
-    if band == 0:
-        ctx.broken.append({"kind": "audit", "hit": "coalesce scenario never produced a padded Initial+1-RTT datagram "
-                                                   "with the remaining window in [1200, max_datagram_size)"})
+    ctx.notes["coalesce"] = {"runs": n, "window_exactly_at_target": hit, "padded_initial_1rtt_datagram_with_window_in_[1200,mds)": band,
+                             "of_which_padded_after_the_last_packet": tail}
+    if band == 0 or tail == 0 or tail == band:
+        ctx.broken.append({"kind": "audit", "hit": "coalesce scenario no longer produces both kinds of padded Initial "
+                                                   "datagram (padding inside the 1-RTT packet / after the last packet) "
+                                                   f"with the remaining window in [1200, max_datagram_size): {band} / {tail}"})
 
 
 # ---------------------------------------------------------------- the builder under a flight budget
 def builder_flight(ctx, thorough):
-    """last clause at the place that enforces it: for every padding-requiring Initial coalesced with
-    Handshake / 0-RTT / 1-RTT packets, over the budget grid of harness/gen_builder.gen_coalesce(), the
-    in-flight packet bytes the real QuicPacketBuilder returns never exceed the max_flight_bytes it
-    was given (oracle: harness/oracle_builder, reading only what flush() returned)"""
+    """last clause at the place that enforces it: for every padding-requiring Initial, alone or
+    coalesced with Handshake / 0-RTT / 1-RTT packets (gen_coalesce: padding inside the 1-RTT packet;
+    gen_initial_tail: padding appended after the last packet), over the budget grid, the in-flight
+    bytes the real QuicPacketBuilder puts on the wire never exceed the max_flight_bytes it was given.
+    Accounting (harness/oracle_builder.wire_in_flight, reading only what flush() returned): a
+    datagram that carries an in-flight packet counts with its whole length minus its
+    acknowledgement-only packets — not just the sizes of the returned packets, because padding
+    appended to the datagram is in no packet's sent_bytes and yet is on the wire."""
     from harness import gen_builder as G, oracle_builder as O
     from harness.impl_builder import BuilderImpl
-    n = 0
-    for case in G.gen_coalesce():
-        t = case[0].split()
-        if t[7] == "none" or (t[8] != "none" and not thorough):
-            continue
-        case, out = G.resolve(case, BuilderImpl)      # "@cap"/"@half"/"@all" -> sizes the builder offered
-        n += 1
-        v = O.check(case, out, True)
-        ctx.count(("builder-flight", tuple(case)), any(o.startswith("ok d=[1") for o in out))
-        if v and v[0] == "flight":
-            ctx.witness("packet builder: " + v[1], {"harness": "builder", "ops": case, "impl_output": out},
-                        {"oracle": "builder-flight"})
-    ctx.cov["traces_validated_against_impl"] += n
+    n = {}
+    for name, gen in (("coalesce", G.gen_coalesce), ("initial-tail", G.gen_initial_tail)):
+        for case in gen():
+            t = case[0].split()
+            if t[7] == "none" or (t[8] != "none" and not thorough):
+                continue
+            case, out = G.resolve(case, BuilderImpl)      # "@cap"/"@half"/"@all" -> sizes the builder offered
+            n[name] = n.get(name, 0) + 1
+            v = O.check(case, out, True, wire=True) or O.check(case, out, True)
+            ctx.count(("builder-flight", tuple(case)), any(o.startswith("ok d=[1") for o in out))
+            if v and v[0] == "flight":
+                ctx.witness("packet builder: " + v[1], {"harness": "builder", "ops": case, "impl_output": out},
+                            {"oracle": "builder-flight", "cases": name})
+    ctx.cov["traces_validated_against_impl"] += sum(n.values())
     ctx.notes["builder_flight_cases"] = n
 
 
@@ -468,7 +518,16 @@ def main(tier):
         "ledger oracle after every API call and the flight-budget oracle on every datagrams_to_send(); a resuming client "
         "whose 0-RTT data leaves 1199 .. max_datagram_size+1 bytes of window (exact, by sizing the last write from the "
         "observed packet overhead) when its padded Initial+Handshake+1-RTT datagram is built, for Reno/CUBIC x "
-        "max_datagram_size 1200/1280/1350/1500; the real packet builder over the coalescing x flight-budget grid."
+        "max_datagram_size 1200/1280/1350/1500, the judged datagram being Initial+Handshake+1-RTT (padding inside the "
+        "1-RTT packet) or Initial+0-RTT (padding appended after the last packet); the real packet builder over the "
+        "coalescing and Initial-only / Initial+Handshake x flight-budget grids. Flight-budget accounting: 'in-flight bytes "
+        "on the wire' of a call = for every datagram carrying at least one in-flight packet (RFC 9002 s.2, decided from the "
+        "plaintext frames), its whole length minus its acknowledgement-only packets (exempt in the property) — datagram "
+        "bytes, not just packet.sent_bytes, because padding appended after the last packet belongs to no packet yet is "
+        "sent with in-flight packets; the packet-size sum is checked as well. The budget is what the property names: "
+        "congestion window minus the bytes counted in flight when the call starts (one max_datagram_size more while a "
+        "probe is pending). Not claimed: that bytes_in_flight itself charges appended padding (the ledger clause defines "
+        "it as the total size of the tracked in-flight packets)."
     )
     return ctx.finish()
 
@@ -487,7 +546,7 @@ def replay(path):
     rp, sig = d["replay"], d.get("signature", {})
     p = None
     if rp.get("harness") == "coalesce":
-        mon, _, info = run_coalesce(rp["seed"], rp["mds"], rp["algo"], rp["target"], rp["last_write"])
+        mon, _, info = run_coalesce(rp["seed"], rp["mds"], rp["algo"], rp["target"], rp["last_write"], rp.get("shape", "full"))
         p = mon.problem
     elif rp.get("harness") == "ledger":
         mon, _ = run_ledger_scenario(rp["scenario"], rp["seed"], rp["algo"])
@@ -497,7 +556,7 @@ def replay(path):
         from harness.impl_builder import BuilderImpl
         impl = BuilderImpl()
         out = [impl.step(l) for l in rp["ops"]]
-        v = O.check(rp["ops"], out, True)
+        v = O.check(rp["ops"], out, True, wire=True) or O.check(rp["ops"], out, True)
         p = v[1] if v and v[0] == "flight" else None
     elif "ops" in rp:
         from harness.impl_recovery import RecoveryImpl
